@@ -7,6 +7,7 @@ require (
 	github.com/celestiaorg/go-libp2p-messenger v0.2.2
 	github.com/ipfs/go-datastore v0.9.0
 	github.com/libp2p/go-libp2p v0.48.0
+	github.com/libp2p/go-libp2p-pubsub v0.16.0
 	github.com/multiformats/go-multiaddr v0.16.1
 )
 
@@ -29,7 +30,6 @@ require (
 	github.com/koron/go-ssdp v0.0.6 // indirect
 	github.com/libp2p/go-buffer-pool v0.1.0 // indirect
 	github.com/libp2p/go-libp2p-asn-util v0.4.1 // indirect
-	github.com/libp2p/go-libp2p-pubsub v0.16.0 // indirect
 	github.com/libp2p/go-msgio v0.3.0 // indirect
 	github.com/libp2p/go-netroute v0.4.0 // indirect
 	github.com/mattn/go-isatty v0.0.20 // indirect
